@@ -764,7 +764,18 @@ def run_shard(spec, ctx, acc):
             t = targets[ti]
             if G.audit_fatal(t.defn):
                 continue
-            strat = st.lists(op_for_target(t), min_size=3, max_size=6).map(lambda ops: {"kind": "silence", "ops": ops})
+            def lenient(ops):
+                # each parsed frame again with validation switched off and its checksum, or
+                # its length field, damaged (accepted or refused - in silence either way)
+                extra = []
+                for op in ops:
+                    if op[0] == "parse" and len(op) == 4 and len(op[1]) >= 8:
+                        f = bytes(op[1])
+                        extra.append(["parse", f[:-1] + bytes([f[-1] ^ 0x01]), op[2], op[3], 0])
+                        extra.append(["parse", f[:4] + bytes([(f[4] + 1) & 0xFF]) + f[5:], op[2], op[3], 0])
+                return {"kind": "silence", "ops": ops + extra}
+
+            strat = st.lists(op_for_target(t), min_size=3, max_size=6).map(lenient)
             core.hyp_search(acc, strat, check, seed=core.derive(ctx["seed"], PROP, "s", t.label),
                             max_examples=2 if quick else 12, known=known, rounds=1, shrink=False)
         return
